@@ -35,9 +35,10 @@ VARIABLES l,        \* index of the next line to consume
           nviol,    \* number of formula failures reported so far
           cfgs,     \* node id -> static configuration (from the Start line)
           ndiv,     \* [checked, diverged, skipped] conformance counters
-          lastProp  \* the latest proposal broadcast in this run: [k, now, h] (C16)
+          lastProp, \* the latest proposal broadcast in this run: [k, now, h] (C16)
+          recPrim   \* heights at which some node became primary of a new view while processing a recovery message (known finding KF-2)
 
-vars == <<l, run, st, acc, sent, lock, maxv, preOk, txq, nviol, cfgs, ndiv, lastProp>>
+vars == <<l, run, st, acc, sent, lock, maxv, preOk, txq, nviol, cfgs, ndiv, lastProp, recPrim>>
 
 \* TRUE: also check every logged call against the transition relation of DbftNode.tla
 CheckConformance == "VERIF_CONFORM" \in DOMAIN IOEnv /\ IOEnv.VERIF_CONFORM = "1"
@@ -385,7 +386,8 @@ StepViolations(e, pre, cfg) ==
                           \cup P("C05", "OneDecision", OneDecision(e, j))
                           \cup P("C08", "DecidedInView0", DecidedInView0(e, j))
                           \cup P("C08", "SameBlockInSync", SameBlockInSync(e, j))
-                          \cup P("C09", "SilentViewBound", SilentViewBound(e, j))
+                          \cup ( IF SilentViewBound(e, j) THEN {}
+                                 ELSE {<<"C09", "SilentViewBound", IF e.cb[j].block.h \in recPrim THEN "KF-2" ELSE "">>} )
                         : j \in OkCb(e, "ProcessBlock") }
       PerPre == UNION { P("C02", "PreCertCount", PreCertCount(e, j)) \cup P("C02", "PreCertProposal", CertProposal(e, j))
                         \cup P("C07", "PreBlockOnce", PreBlockOnce(e, j) \/ \E k \in OkCb(e, "ProcessPreBlock") : k < j => FALSE)
@@ -460,7 +462,7 @@ NextPreOk(e, pre) == (IF NewHeight(e, pre) THEN 0 ELSE preOk[e.n]) + Cardinality
 -----------------------------------------------------------------------------
 Init == /\ l = 1 /\ run = [call |-> "none"] /\ st = <<>> /\ acc = <<>> /\ sent = <<>> /\ lock = <<>>
         /\ maxv = <<>> /\ preOk = <<>> /\ txq = <<>> /\ nviol = 0
-        /\ cfgs = <<>> /\ ndiv = [checked |-> 0, diverged |-> 0, skipped |-> 0] /\ lastProp = None
+        /\ cfgs = <<>> /\ ndiv = [checked |-> 0, diverged |-> 0, skipped |-> 0] /\ lastProp = None /\ recPrim = {}
         /\ TLCSet(1, ndiv)
 
 StartRun ==
@@ -475,7 +477,7 @@ StartRun ==
        /\ preOk' = [n \in ns |-> 0]
        /\ txq' = [n \in ns |-> [key |-> NoKey, asked |-> {}, given |-> {}]]
        /\ cfgs' = [n \in ns |-> [tpb |-> 0, maxTpb |-> 0, inc |-> 1, amevH |-> -1, watch |-> FALSE]]
-       /\ lastProp' = None
+       /\ lastProp' = None /\ recPrim' = {}
   /\ l' = l + 1 /\ UNCHANGED <<nviol, ndiv>>
 
 Report(e, x) == PrintT(<<"VIOL", x[1], x[2], x[3], run.run, e.i, e.n, e.call>>)
@@ -519,6 +521,9 @@ Step ==
         /\ lastProp' = (LET js == Bc(e, "PrepareRequest") IN
                           IF js = {} \/ e.panic # "" THEN lastProp
                           ELSE LET j == CHOOSE x \in js : \A y \in js : y <= x IN [k |-> "p", now |-> e.now, h |-> e.cb[j].m.h])
+        /\ recPrim' = IF /\ e.call = "OnReceive" /\ e.arg.t = "RecoveryMessage" /\ e.panic = "" /\ pre.started /\ e.post.started
+                         /\ e.post.h = pre.h /\ e.post.v > pre.v /\ e.post.me = e.post.primary
+                      THEN recPrim \cup {e.post.h} ELSE recPrim
   /\ l' = l + 1 /\ UNCHANGED run
 
 EndViolations(x) ==
@@ -531,7 +536,7 @@ EndRun ==
   /\ LET V == EndViolations(TLog[l]) IN
        /\ \A x \in V : PrintT(<<"VIOL", x[1], x[2], x[3], run.run, 0, -1, "RunEnd">>)
        /\ nviol' = nviol + Cardinality(V)
-  /\ l' = l + 1 /\ UNCHANGED <<run, st, acc, sent, lock, maxv, preOk, txq, cfgs, ndiv, lastProp>>
+  /\ l' = l + 1 /\ UNCHANGED <<run, st, acc, sent, lock, maxv, preOk, txq, cfgs, ndiv, lastProp, recPrim>>
 
 Next == StartRun \/ Step \/ EndRun
 Spec == Init /\ [][Next]_vars
